@@ -6,7 +6,7 @@ mon.oracles.ridge (numpy.linalg.solve on the raw normal equations) and predict_e
 lie within 6 sigma = 6 alpha sqrt(x' A^-1 x) of x.beta for alpha in {1e-9, 1e-6, 1e-3, 0.5} (so it is centred
 on x.beta and converges to it as alpha -> 0).
 
-As built: Workload extras: arms whose first rows arrive late through single-row partial_fit, a few single batches of 140000-200000 rows (90% on one arm, scale=True in half of them).
+As built: Workload extras: arms whose first rows arrive late through single-row partial_fit, a few single batches of 140000-200000 rows (90% on one arm, scale=True in half of them). A third of the LinGreedy cases explore (epsilon 0.25 / 0.5 / bit-for-bit one of the bandit's own first uniforms): the row draws are replayed from a clone of the generator, exploring rows must be uniform numbers over the arms, every other row - the exact tie included - must be the ridge prediction.
 """
 from mon import env  # noqa: F401
 import math
@@ -24,7 +24,8 @@ RULE = ("LinGreedy(eps=0) / LinUCB / LinTS x d in {1,2,3,5,8} x query rows m in 
         "after fit; Gaussian contexts N(1,4), rewards N(0,9); non-trivial = (d=1 and m>1) or lambda != 1 or an arm with zero "
         "rows or >=2 partial_fit chunks or scale=True; distinct = (policy, d, m, lambda, alpha, scale, history skeleton, zero-row arms)")
 BUDGET = {"quick": {"cases": 1200, "shards": 16}, "thorough": {"cases": 30000, "shards": 16, "wall_s": 3600}}
-MIN = {"quick": {"evaluations": 3000, "nontrivial": 200}, "thorough": {"evaluations": 150000, "nontrivial": 5000}}
+MIN = {"quick": {"evaluations": 3000, "nontrivial": 200, "counters": {"exploiting_rows_under_exploration_tie": 10}},
+       "thorough": {"evaluations": 150000, "nontrivial": 5000, "counters": {"exploiting_rows_under_exploration_tie": 300}}}
 ASSUMPTIONS = ["tolerance 1e-6 (1+|v|) on deterministic expectations (bounded condition number: lambda >= 0.01, |x| small)",
                "LinTS: a draw outside 6 sigma of x.beta is a violation (false-alarm probability ~2e-9 per comparison)",
                "scale=True: population standard deviation, sigma <= 1e-6 replaced by 1, only with a single fit"]
@@ -63,6 +64,15 @@ def run_case(rs, ctx):
     n_arms = int(rs.integers(2, 5))
     cfg = {"arms": list(gen.LABELS[labels][:n_arms]), "labels": labels, "lp": lp, "np": {"kind": "none"},
            "seed": int(rs.integers(10 ** 6)), "n_jobs": int(gen.pick(rs, [1, 1, 2])), "backend": None}
+    eps = 0.0
+    if kind == "lingreedy" and rs.integers(3) == 0:
+        # exploration on: a row explores iff its uniform draw is < epsilon (the draws are replayed from a clone of the bandit's
+        # generator); every other row must still be the ridge prediction. Half of these rates are bit-for-bit one of the
+        # bandit's own first uniforms: an exact tie, which 'draw < epsilon' resolves as 'exploit'
+        from mabwiser.utils import create_rng
+        eps = float(create_rng(cfg["seed"]).rand(6)[int(rs.integers(6))]) if rs.integers(2) else float(gen.pick(rs, [0.25, 0.5]))
+        lp["epsilon"] = eps
+        ctx.count("lingreedy_exploring_cases")
     arms = list(cfg["arms"])
     huge = ctx.index % 150 == 7  # a few cases with a very long single batch (more rows per arm than any internal slice size)
     n_chunks = 1 if (scale or huge) else int(rs.integers(1, 5))
@@ -109,6 +119,8 @@ def run_case(rs, ctx):
     mq = int(gen.pick(rs, [1, 2, 5, 9]))
     Q = rs.normal(1, 2, (mq, d))
     wit = {"cfg": cfg, "ops": ops, "query": Q.tolist()}
+    import copy as _copy
+    draws = _copy.deepcopy(m._rng).rand(mq) if eps > 0 else None
     try:
         res = m.predict_expectations(Q)
     except Exception as ex:  # noqa: BLE001
@@ -119,6 +131,17 @@ def run_case(rs, ctx):
         ctx.violation("%d rows returned for %d contexts" % (len(rows), mq), wit)
         return
     for i, row in enumerate(rows):
+        if draws is not None and draws[i] < eps:
+            # an exploring row: uniform random expectations, one per current arm
+            ctx.ev()
+            ctx.count("exploring_rows")
+            if list(row.keys()) != list(arms) or not all(0.0 <= float(v) < 1.0 for v in row.values()):
+                ctx.violation("lingreedy epsilon=%r: exploring row %d (draw %r) is not a row of uniform numbers over the arms: %r" % (
+                    eps, i, float(draws[i]), dict(row)), wit, kind="lingreedy_explore_row")
+                return
+            continue
+        if draws is not None:
+            ctx.count("exploiting_rows_under_exploration" + ("_tie" if draws[i] == eps else ""))
         for a in arms:
             ctx.ev()
             got = float(row[a])
